@@ -207,7 +207,7 @@ func (fr *Frame) abstractInvoke(ins ssa.Instruction, recv *Val, it types.Type, m
 		nw := vc.fresh(u8.Key, "(Array Int (_ BitVec 8))")
 		scratch := vc.fresh("g_scratch", "(Array Int (_ BitVec 8))")
 		pb, pl := p.L[0], p.L[1]
-		vc.addAxiom(u8.Key, fmt.Sprintf("(forall ((a Int)) (! (= (select %s a) (ite (and (<= %s a) (< a (+ %s %s))) (select g_S (+ %s (- a %s))) (ite (and (<= (+ %s %s) a) (< a (+ %s %s))) (select %s a) (select %s a)))) :pattern ((select %s a))))",
+		vc.addAxiomArr(u8.Key, nw, old, fmt.Sprintf("(forall ((a Int)) (! (= (select %s a) (ite (and (<= %s a) (< a (+ %s %s))) (select g_S (+ %s (- a %s))) (ite (and (<= (+ %s %s) a) (< a (+ %s %s))) (select %s a) (select %s a)))) :pattern ((select %s a))))",
 			nw, p.L[0], p.L[0], n, pos, p.L[0], p.L[0], n, p.L[0], p.L[1], scratch, old, nw), func(idx string) (string, []string) {
 			return eq(sel(nw, idx), ite(and(le(pb, idx), lt(idx, add(pb, n))), sel("g_S", add(pos, sub(idx, pb))),
 				ite(and(le(add(pb, n), idx), lt(idx, add(pb, pl))), sel(scratch, idx), sel(old, idx)))), nil
